@@ -30,6 +30,7 @@ CASES = {"quick": 1000, "thorough": 12000}
 FUZZ_RUNS = {"thorough": 20000}     # coverage-guided leg, 8 processes (vlib/fuzz.py)
 
 WIDE = ["日本", "한글", "ａｂ", "é", "a​b", "😀", "ﬁ", "İ"]
+WIDE += ["❤\ufe0f", "1\ufe0f\u20e3", "👨\u200d👩\u200d👧", "e\u0301"]     # variation-selector, keycap and ZWJ sequences, combining mark
 MULTI = ["l\nm", "first\nsecond line", "\nlead"]
 CTRL = ["a\tb", "x\x07y", "e\x1b[0m", "r\rs", "z\x00"]
 NAMES = ["a", "b", "c", "name", "日本", "é", "wide_column_name_abcdefgh", "x y", "items", "n1"]
